@@ -1,6 +1,7 @@
 package props
 
 import (
+	sqlite3 "github.com/mattn/go-sqlite3"
 	"fmt"
 	"os"
 	"os/exec"
@@ -76,6 +77,14 @@ func KillTest(chain string, height uint32, op int, dbpath string) {
 	})
 	d.SyncTo(b.Chain.Tip(), drive.SyncOpts{})
 	os.Exit(4) // the crash point was never reached
+}
+
+// c02Dump reads the ledger through a second connection (see canon.FileWAL for the WAL case).
+func c02Dump(dbfile string, wal bool) (canon.Dump, error) {
+	if wal {
+		return canon.FileWAL(dbfile, canon.Ledger)
+	}
+	return canon.File(dbfile, canon.Ledger)
 }
 
 func runC02(c *core.Ctx, r *core.Result) {
@@ -161,7 +170,7 @@ func c02Chain(c *core.Ctx, r *core.Result, cov Coverage, wal bool) {
 			}
 			if op.Kind == "commit" && err == nil {
 				committed++
-				dump, e := canon.File(d.DBFile(), canon.Ledger)
+				dump, e := c02Dump(d.DBFile(), wal)
 				if e != nil {
 					panic("harness: dump: " + e.Error())
 				}
@@ -176,7 +185,7 @@ func c02Chain(c *core.Ctx, r *core.Result, cov Coverage, wal bool) {
 	if err != nil {
 		panic("harness: " + err.Error())
 	}
-	if dump, e := canon.File(d.DBFile(), canon.Ledger); e == nil {
+	if dump, e := c02Dump(d.DBFile(), wal); e == nil {
 		D[base] = dump
 	}
 	d.DB.SetHooks(hooks)
@@ -205,9 +214,18 @@ func c02Chain(c *core.Ctx, r *core.Result, cov Coverage, wal bool) {
 	if c.Thorough() {
 		resumeStride = 1
 	}
+	startDir := dir + "/block-start"
+	startHeight := uint32(0)
 	for i, img := range images {
+		if img.op == 1 && strings.HasPrefix(img.desc, "before begin") {
+			// the state every failure run of this block starts from
+			os.RemoveAll(startDir)
+			if err := drive.CopyDB(img.dir+"/db", startDir+"/db"); err == nil {
+				startHeight = img.height
+			}
+		}
 		key := fmt.Sprintf("%s/h%d/op%d", name, img.height, img.op)
-		if !c.Want(key) {
+		if !c.Want(key) && c.Only != key+"/fails" {
 			os.RemoveAll(img.dir)
 			continue
 		}
@@ -221,7 +239,11 @@ func c02Chain(c *core.Ctx, r *core.Result, cov Coverage, wal bool) {
 		}
 		dbfile := drive.DBFileOf(img.dir + "/db")
 		// (a)+(b): open with a fresh read-write connection (SQLite recovers a hot journal)
-		all, e := canon.FileRW(dbfile, canon.All)
+		openImg := canon.FileRW
+		if wal {
+			openImg = canon.FileWAL
+		}
+		all, e := openImg(dbfile, canon.All)
 		if e != nil {
 			r.Violate(core.Violation{Key: key, Signature: "C02:" + cov.Name + ":image-unreadable", Desc: "crash image cannot be opened: " + e.Error(), Detail: []string{img.desc}})
 			continue
@@ -291,7 +313,7 @@ func c02Chain(c *core.Ctx, r *core.Result, cov Coverage, wal bool) {
 				if !ro.Reached {
 					r.Violate(core.Violation{Key: key, Signature: "C02:" + cov.Name + ":resume-" + outcomeClass(ro) + ":" + errClass(ro.LastErr+ro.DiedMsg), Desc: "resume from crash image does not reach the tip: " + ro.String(), Detail: []string{img.desc}})
 				} else {
-					got, _ := canon.File(dbfile, canon.Ledger)
+					got, _ := c02Dump(dbfile, wal)
 					if !canon.Equal(D[tip], got) {
 						r.Violate(core.Violation{Key: key, Signature: "C02:" + cov.Name + ":resume-ledger-differs:" + strings.Join(canon.TablesDiffering(D[tip], got), "+"),
 							Desc:   fmt.Sprintf("resuming from the crash image (block %d in flight, %s) and syncing to the tip gives a different ledger than the uninterrupted run", img.height, img.desc),
@@ -299,6 +321,12 @@ func c02Chain(c *core.Ctx, r *core.Result, cov Coverage, wal bool) {
 					}
 				}
 			}
+		}
+		// (d) "a block fails at any instant": the same operation returns an error once instead of the process dying there.
+		// The daemon (restarted if it chooses to exit) must still apply every height once, in order, without gaps.
+		if ok && !wal && startHeight == img.height && strings.HasPrefix(img.desc, "before ") && (img.op%resumeStride == 0 || nearCommit || c.Only != "") {
+			r.Count("block-failures-injected", 1)
+			c02FailAt(r, cov, b, D, startDir, img, key, dir)
 		}
 		// conformance of the image method: really SIGKILL a child process at the same point and compare
 		killStride := 997
@@ -333,6 +361,100 @@ func c02Chain(c *core.Ctx, r *core.Result, cov Coverage, wal bool) {
 			r.Sample(map[string]interface{}{"crash_point": key, "op": img.desc, "recorded_synced": synced, "tx_had_writes": img.dirty})
 		}
 		os.RemoveAll(img.dir)
+	}
+}
+
+// c02FailAt runs the daemon from the state before block img.height and makes operation number img.op of that
+// block fail once with SQLITE_BUSY; the run continues (a fresh node on a copy of the files if the daemon exits)
+// to three blocks past the failed one.
+func c02FailAt(r *core.Result, cov Coverage, b *drive.Builder, D map[uint32]canon.Dump, startDir string, img *c02Image, key, scratch string) {
+	cov.Era.Apply()
+	fdir := fmt.Sprintf("%s/fail-%d-%d", scratch, img.height, img.op)
+	defer os.RemoveAll(fdir)
+	if err := drive.CopyDB(startDir+"/db", fdir+"/db"); err != nil {
+		panic("harness: " + err.Error())
+	}
+	target := img.height + 3
+	if target > b.Chain.Tip() {
+		target = b.Chain.Tip()
+	}
+	n, fired := 0, false
+	site := "?"
+	committed := img.height - 1
+	hooks := &sqlw.Hooks{WantCaller: true,
+		Before: func(o *sqlw.Op) error {
+			if o.Kind == "begin" {
+				n = 0
+			}
+			n++
+			if !fired && committed+1 == img.height && n == img.op {
+				fired = true
+				site = siteOf(o.Stack)
+				return sqlite3.Error{Code: sqlite3.ErrBusy}
+			}
+			return nil
+		},
+		After: func(o *sqlw.Op, err error) {
+			if o.Kind == "commit" && err == nil {
+				committed++
+			}
+		},
+	}
+	path := fdir + "/db"
+	var out drive.Outcome
+	for attempt := 0; attempt < 3; attempt++ {
+		d, err := drive.Open(path, fake.NewNode(b.Chain), hooks, false)
+		if err != nil {
+			r.Violate(core.Violation{Key: key + "/fails", Signature: "C02:" + cov.Name + ":restart-refused-after-failed-block:" + errClass(err.Error()), Desc: "fresh node refuses the database after a failed block: " + err.Error(), Detail: []string{img.desc}})
+			return
+		}
+		out = d.SyncTo(target, drive.SyncOpts{FaultPending: func() bool { return !fired }})
+		d.Close()
+		if !out.Died {
+			break
+		}
+		// the daemon chose to exit: restart on a copy (the dead incarnation's connections still hold locks in this process)
+		np := fmt.Sprintf("%s/r%d/db", fdir, attempt)
+		if err := drive.CopyDB(path, np); err != nil {
+			panic("harness: " + err.Error())
+		}
+		path = np
+		committed = SyncedOf(drive.DBFileOf(path))
+	}
+	r.Outcome("block-failure:" + outcomeClass(out))
+	if !out.Reached {
+		r.Violate(core.Violation{Key: key + "/fails", Signature: "C02:" + cov.Name + ":failed-block-not-recovered:" + outcomeClass(out), Desc: fmt.Sprintf("after %s of block %d failed once the daemon does not reach height %d: %s", img.desc, img.height, target, out.String()), Detail: []string{img.desc}})
+		return
+	}
+	all, err := canon.FileRW(drive.DBFileOf(path), canon.All)
+	if err != nil {
+		panic("harness: " + err.Error())
+	}
+	ledger := canon.Dump{}
+	seen := map[uint32]int{}
+	for t, rows := range all {
+		if t != "pn_sync_version" {
+			ledger[t] = rows
+			continue
+		}
+		for _, row := range rows {
+			var h uint32
+			var v int
+			fmt.Sscanf(row, "height=%d version=%d", &h, &v)
+			if v != -1 {
+				seen[h]++
+			}
+		}
+	}
+	for h := cov.Era.Base + 1; h <= target; h++ {
+		if seen[h] != 1 {
+			r.Violate(core.Violation{Key: key + "/fails", Signature: "C02:" + cov.Name + ":height-not-applied-exactly-once-after-failed-block", Desc: fmt.Sprintf("after %s of block %d failed once, height %d has %d version rows (synced %d)", img.desc, img.height, h, seen[h], target), Detail: []string{img.desc}})
+			return
+		}
+	}
+	if !canon.Equal(D[target], ledger) {
+		r.Violate(core.Violation{Key: key + "/fails", Signature: "C02:ledger-differs-after-failed-statement:" + site,
+			Desc: fmt.Sprintf("chain %s: after %s (call site %s) of block %d failed once, the ledger at height %d differs from the uninterrupted run (tables %s)", cov.Name, img.desc, site, img.height, target, strings.Join(canon.TablesDiffering(D[target], ledger), "+")), Detail: joinDiff(D[target], ledger)})
 	}
 }
 
